@@ -208,11 +208,11 @@ def c01_streams(tier, seed):
 def c10_streams(tier, seed):
     q = tier == "quick"
     c = c10_classifier()
-    return [(["tok", "c10", str(seed), "1500" if q else "60000"], c),
+    return [(["tok", "c10", str(seed), "1500" if q else "30000"], c),
             # histories of the mutating API on accepted dictionaries (builders_total_any_history): mappings of wrong
             # length on one side, user lexicons with malformed rows, write/read
-            (["tok", "c06", str(seed + 5), "400" if q else "12000"], c),
-            (["tok", "c08", str(seed + 5), "300" if q else "8000"], c),
+            (["tok", "c06", str(seed + 5), "400" if q else "6000"], c),
+            (["tok", "c08", str(seed + 5), "300" if q else "4000"], c),
             # width limits of the id types: bigram files with 65534..65537 rows (raw and dual), matrix.def headers
             # around 65535/65536 (finding F26; theorems C10guard.*)
             (["limits", str(seed), "6" if q else "99"], limits_classify)]
